@@ -134,26 +134,34 @@ func (t Time) IsZero() bool {
 // JS returns the time as a JavaScript date. The result is undefined if the
 // year of t is not in the range [-999999, 999999].
 func (t Time) JS() native.JS {
+	name, offset := t.t.Zone()
+	if offset%60 != 0 {
+		// The seconds of a time zone offset cannot be represented in a
+		// JavaScript date time string.
+		t.t = t.t.UTC()
+		name, offset = "UTC", 0
+	}
 	y := t.t.Year()
 	ms := int64(t.t.Nanosecond()) / int64(time.Millisecond)
-	name, offset := t.t.Zone()
-	if name == "UTC" {
+	if name == "UTC" && offset == 0 {
 		format := `new Date("%0.4d-%0.2d-%0.2dT%0.2d:%0.2d:%0.2d.%0.3dZ")`
 		if y < 0 || y > 9999 {
 			format = `new Date("%+0.6d-%0.2d-%0.2dT%0.2d:%0.2d:%0.2d.%0.3dZ")`
 		}
 		return native.JS(fmt.Sprintf(format, y, t.t.Month(), t.t.Day(), t.t.Hour(), t.t.Minute(), t.t.Second(), ms))
 	}
+	sign := '+'
+	if offset < 0 {
+		sign = '-'
+		offset = -offset
+	}
 	zone := offset / 60
 	h, m := zone/60, zone%60
-	if m < 0 {
-		m = -m
-	}
-	format := `new Date("%0.4d-%0.2d-%0.2dT%0.2d:%0.2d:%0.2d.%0.3d%+0.2d:%0.2d")`
+	format := `new Date("%0.4d-%0.2d-%0.2dT%0.2d:%0.2d:%0.2d.%0.3d%c%0.2d:%0.2d")`
 	if y < 0 || y > 9999 {
-		format = `new Date("%+0.6d-%0.2d-%0.2dT%0.2d:%0.2d:%0.2d.%0.3d%+0.2d:%0.2d")`
+		format = `new Date("%+0.6d-%0.2d-%0.2dT%0.2d:%0.2d:%0.2d.%0.3d%c%0.2d:%0.2d")`
 	}
-	return native.JS(fmt.Sprintf(format, y, t.t.Month(), t.t.Day(), t.t.Hour(), t.t.Minute(), t.t.Second(), ms, h, m))
+	return native.JS(fmt.Sprintf(format, y, t.t.Month(), t.t.Day(), t.t.Hour(), t.t.Minute(), t.t.Second(), ms, sign, h, m))
 }
 
 // JSON returns a time in a format suitable for use in JSON.
